@@ -656,7 +656,7 @@ class OutputSchemaBuilder(
                 default: Any = graphql.Undefined
                 param_type = field.types[param.name]
                 if is_union_of(param_type, graphql.GraphQLResolveInfo):
-                    break
+                    continue
                 param_field = ObjectField(
                     param.name,
                     param_type,
@@ -680,6 +680,7 @@ class OutputSchemaBuilder(
                         default = serialize(
                             param_type,
                             param.default,
+                            aliaser=self.aliaser,
                             fall_back_on_any=False,
                             check_type=True,
                         )
